@@ -2,9 +2,11 @@ package main
 
 import (
 	"bufio"
+	"bytes"
 	"flag"
 	"fmt"
 	"os"
+	"os/exec"
 	"runtime"
 	"sort"
 	"strings"
@@ -29,7 +31,46 @@ var gens = map[string][]GenFunc{} // property id -> generators
 func regOp(name string, f OpFunc)   { ops[name] = f }
 func regGen(prop string, g GenFunc) { gens[prop] = append(gens[prop], g) }
 
+// A case that has not answered within caseTimeout is reported as (timeout) -- but only after it was
+// given a second chance ALONE: the limit is wall-clock time, and 16 workers of a -race build next to
+// whatever else the machine is doing can overrun five seconds on code that is merely slow.  cmdRun
+// re-runs every first-pass timeout in a fresh process of its own, one at a time, with confirmTimeout;
+// a dead-lock or an endless loop overruns that too and stays (timeout), a starved case answers and
+// its answer is what the judge sees.
 var caseTimeout = 5 * time.Second
+var confirmTimeout = 60 * time.Second
+
+// at most this many cases are confirmed as timeouts one by one (each costs confirmTimeout); the
+// check has failed by then, the remaining first-pass timeouts are reported as they are
+const maxConfirmed = 2
+
+// afterTicks is time.After counted in 100 ms sleeps of this process instead of read off the wall
+// clock: a pause of the whole machine (a sandbox being snapshotted or resumed, a clock step) ends
+// one sleep late and costs one tick however long it lasted, and a process starved of CPU gets its
+// ticks late as well.  The returned stop function releases the ticking goroutine.
+func afterTicks(d time.Duration) (<-chan struct{}, func()) {
+	const tick = 100 * time.Millisecond
+	ch := make(chan struct{})
+	quit := make(chan struct{})
+	var once sync.Once
+	go func() {
+		t := time.NewTicker(tick) // delivers at most one tick for a stall of any length
+		defer t.Stop()
+		for n := int(d / tick); n > 0; n-- {
+			select {
+			case <-quit:
+				return
+			case <-t.C:
+			}
+		}
+		close(ch)
+	}()
+	return ch, func() { once.Do(func() { close(quit) }) }
+}
+
+func isTimeout(res string) bool {
+	return res == "(timeout)" || strings.HasPrefix(res, "(timeout ")
+}
 
 // "mem" cases measure allocation of the whole process: they run alone.
 var memLock sync.RWMutex
@@ -55,10 +96,17 @@ func runCase(c Case) (res Sx) {
 		}()
 		done <- f(c.Args)
 	}()
+	expired, stop := afterTicks(caseTimeout)
+	defer stop()
 	select {
 	case r := <-done:
 		return r
-	case <-time.After(caseTimeout):
+	case <-expired:
+		select { // both ready (the process was stalled): the answer counts
+		case r := <-done:
+			return r
+		default:
+		}
 		return L(Sym("timeout"))
 	}
 }
@@ -88,6 +136,8 @@ func cmdGen(args []string) {
 func cmdRun(args []string) {
 	fs := flag.NewFlagSet("run", flag.ExitOnError)
 	workers := fs.Int("j", runtime.NumCPU(), "workers")
+	fs.DurationVar(&caseTimeout, "timeout", caseTimeout, "per-case limit (wall clock)")
+	fs.DurationVar(&confirmTimeout, "confirm", confirmTimeout, "limit of the solo re-run of a case that overran -timeout (0: no re-run)")
 	fs.Parse(args)
 	sc := bufio.NewScanner(os.Stdin)
 	sc.Buffer(make([]byte, 1<<20), 1<<28)
@@ -113,7 +163,11 @@ func cmdRun(args []string) {
 					out[i] = parts[0] + "\t" + parts[1] + "\t(badline)"
 					continue
 				}
+				t0 := time.Now()
 				r := runCase(Case{Op: parts[0], Args: a.L})
+				if d := time.Since(t0); d > time.Second { // diagnostic only, never part of an observation
+					fmt.Fprintf(os.Stderr, "SLOW-CASE line=%d op=%s args=%dB took=%s\n", i+1, parts[0], len(parts[1]), d.Round(10*time.Millisecond))
+				}
 				out[i] = parts[0] + "\t" + parts[1] + "\t" + r.String()
 			}
 		}()
@@ -123,11 +177,62 @@ func cmdRun(args []string) {
 	}
 	close(idx)
 	wg.Wait()
+	if confirmTimeout > 0 {
+		first, confirmed := 0, 0
+		for i, l := range out {
+			parts := strings.SplitN(l, "\t", 3)
+			if len(parts) < 3 || !isTimeout(parts[2]) {
+				continue
+			}
+			first++
+			if confirmed >= maxConfirmed {
+				continue
+			}
+			if r, ok := runAlone(lines[i]); ok {
+				out[i] = r
+				if p := strings.SplitN(r, "\t", 3); len(p) == 3 && isTimeout(p[2]) {
+					confirmed++
+				}
+			} else {
+				confirmed++ // the solo process died or gave no answer: the first-pass observation stands
+			}
+		}
+		if first > 0 {
+			fmt.Fprintf(os.Stderr, "TIMEOUT-RERUN first_pass=%d still_timeout=%d limit=%s\n", first, confirmed, confirmTimeout)
+		}
+	}
 	w := bufio.NewWriterSize(os.Stdout, 1<<20)
 	defer w.Flush()
 	for _, l := range out {
 		w.WriteString(l)
 		w.WriteByte('\n')
+	}
+}
+
+// runAlone runs one case line in a fresh process of this binary, by itself, under confirmTimeout.
+func runAlone(line string) (string, bool) {
+	cmd := exec.Command(os.Args[0], "run", "-j", "1", "-timeout", confirmTimeout.String(), "-confirm", "0")
+	cmd.Stdin = strings.NewReader(line + "\n")
+	var so bytes.Buffer
+	cmd.Stdout = &so
+	cmd.Stderr = os.Stderr // a DATA RACE report of the solo run is a report of this run
+	done := make(chan error, 1)
+	if err := cmd.Start(); err != nil {
+		return "", false
+	}
+	go func() { done <- cmd.Wait() }()
+	expired, stop := afterTicks(confirmTimeout + 30*time.Second)
+	defer stop()
+	select {
+	case err := <-done:
+		res := strings.TrimSuffix(so.String(), "\n")
+		if (err != nil && so.Len() == 0) || strings.Count(res, "\n") != 0 || res == "" {
+			return "", false
+		}
+		return res, true
+	case <-expired:
+		cmd.Process.Kill()
+		return "", false
 	}
 }
 
